@@ -326,7 +326,7 @@ def run_change(case, agg):
             env = dict(os.environ, PYTHONPATH=os.environ["SVMC_REPO"], PYTHONDONTWRITEBYTECODE="1")
             pr = subprocess.run([sys.executable, "-c", "import sys, logging; logging.disable(logging.CRITICAL); from suit_generator import cmd_create; "
                                  "cmd_create.main(input_file=sys.argv[1], input_format='AUTO', output_file=sys.argv[2])", dp, os.path.join(root, "ref.suit")],
-                                env=env, capture_output=True, text=True)
+                                env=env, capture_output=True, text=True, timeout=300)
             if pr.returncode != 0:
                 raise RuntimeError(pr.stderr[-300:])
             ref = open(os.path.join(root, "ref.suit"), "rb").read()
